@@ -138,12 +138,12 @@ def check_conversation(core: DCCore, since: int, expect_getkey: tuple, auth_type
     return bad
 
 
-def ref_blob(rng: random.Random, rkid: uuid.UUID, rk: cms.RootKey, sid: str, pos: t.Tuple[int, int, int], mode: str, plaintext: bytes, in_envelope: bool = True, domain: str = "verif.test") -> bytes:
+def ref_blob(rng: random.Random, rkid: uuid.UUID, rk: cms.RootKey, sid: str, pos: t.Tuple[int, int, int], mode: str, plaintext: bytes, in_envelope: bool = True, domain: str = "verif.test", forest: t.Optional[str] = None) -> bytes:
     """A blob as a Windows peer would emit it (reference crypto only). mode: 'nonce' | 'public'."""
     from vf.ref import crypto
 
     l0, l1, l2 = pos
-    common_kw = dict(nonce=rng.randbytes(32), cek=rng.randbytes(32), gcm_nonce=rng.randbytes(12), in_envelope=in_envelope, domain=domain, forest=domain)
+    common_kw = dict(nonce=rng.randbytes(32), cek=rng.randbytes(32), gcm_nonce=rng.randbytes(12), in_envelope=in_envelope, domain=domain, forest=domain if forest is None else forest)
     if mode == "nonce":
         return cms.reference_protect(plaintext, sid, rkid, rk, l0, l1, l2, **common_kw)
     s = rsd.canonical_sid_from_string(sid)
